@@ -25,7 +25,10 @@ def step (s : S) (w : List String) : S × String :=
     (s, (look s.digest a).getD "no-expectation" ++ " " ++ (look s.digest b).getD "no-expectation")
   | ["runclose", id, k] =>
     (s, s!"frames={k} display-cleanups=1 speaker-cleanups={if (look s.audio id).getD false then "1" else "-1"}")
-  | ["runcancel", _, _] => (s, "extra-frames-le-1=1 display-cleanups=1")
+  | ["runcancel", _, _] | ["rundeadline", _, _] => (s, "extra-frames-le-1=1 display-cleanups=1")
+  | ["tphase", _, _, _, _, _] => (s, "same")
+  | ["after", _, _, b, _] => (s, (look s.digest b).getD "no-expectation")
+  | ["serlong", _, _] => (s, "serial-complete=1 in-order=1")
   | _ => (s, "bad-op")
 
 def run (lines : Array String) : IO Unit := runMode lines 1 { digest := [], audio := [] } step
